@@ -425,6 +425,47 @@ pub fn gen_injection(rng: &mut Rng, ex: &mut Exec, c: &GenCtx) -> Vec<InjFrame> 
     keep
 }
 
+/// RFC 9001 4.1.3: "If the packet is from a previously installed encryption level, it MUST NOT contain data that extends past
+/// the end of previously received data in that flow. Implementations MUST treat any violations of this requirement as a
+/// connection error of type PROTOCOL_VIOLATION." TLS 1.3 has one flight per direction at the Initial level and one at the
+/// Handshake level: the Initial level of an endpoint is superseded once it holds Handshake keys (it consumed the complete
+/// ClientHello / ServerHello), the Handshake level once its handshake is complete.
+pub fn level_superseded(space: usize, snap: &Snapshot) -> bool {
+    match space {
+        0 => snap.spaces[1].has_keys || snap.spaces[2].has_keys || snap.state == "established",
+        1 => snap.state == "established",
+        _ => false,
+    }
+}
+
+/// ONE CRYPTO frame (first and only frame of the datagram) for a level the victim has superseded but still holds keys
+/// for, around the offset `rd` it has consumed there: starting inside the consumed data and extending past it, starting
+/// exactly at it, starting beyond it (all three carry new data: PROTOCOL_VIOLATION), entirely inside it / ending exactly
+/// at it / empty at it (a retransmission: ignored)
+pub fn gen_old_level_crypto(rng: &mut Rng, ex: &mut Exec, rd: u64) -> Vec<InjFrame> {
+    let (off, len, label): (u64, u64, &'static str) = match rng.below(8) {
+        0 | 1 | 2 if rd > 0 => {
+            let span = if rng.chance(1, 2) { 3 } else { 300 };
+            let k = 1 + rng.below(rd.min(span));
+            let over = *rng.pick(&[1u64, 1, 2, 17]) + if rng.chance(1, 4) { rng.below(200) } else { 0 };
+            (rd - k, k + over, "old-level-crypto-straddle")
+        }
+        3 => (rd, 1 + rng.below(40), "old-level-crypto-at-consumed"),
+        4 => (rd + 1 + rng.below(60), 1 + rng.below(20), "old-level-crypto-beyond"),
+        5 if rd > 0 => {
+            let k = 1 + rng.below(rd.min(300));
+            (rd - k, k, "old-level-crypto-ends-at-consumed")
+        }
+        6 => (rng.below(rd + 1), 0, "old-level-crypto-empty"),
+        _ if rd > 1 => {
+            let off = rng.below(rd - 1);
+            (off, 1 + rng.below((rd - off - 1).min(40)), "old-level-crypto-below")
+        }
+        _ => (rd, 1, "old-level-crypto-at-consumed"),
+    };
+    enc(ex, &format!("crypto {off} {}", payload(rng, len as usize)), label).into_iter().collect()
+}
+
 fn opt(x: Option<u64>) -> String {
     x.map_or("-".to_string(), |v| v.to_string())
 }
@@ -904,7 +945,7 @@ pub fn frames(seed: u64, out: &mut Outcome) {
         _ => 2,
     };
     let n_attack = if mode == 0 { rng.range(5, 60) } else { rng.range(20, 120) };
-    let kill_at = if mode == 2 { rng.below(n_attack) } else { u64::MAX };
+    let mut kill_at = if mode == 2 { rng.below(n_attack) } else { u64::MAX };
     let every = rng.range(1, 4);
     let hostile_sends_streams = !wa.sides[hostile].plans.is_empty();
     let shared = Rc::new(RefCell::new(Shared { lim: if victim == SERVER { lim_s } else { lim_c }, ..Default::default() }));
@@ -1018,6 +1059,25 @@ pub fn frames(seed: u64, out: &mut Outcome) {
                     }
                 }
             }
+            // C03 / RFC 9001 4.1.3, first frame of the datagram judged exactly: a CRYPTO frame at a level the victim had
+            // superseded before the datagram (`level_superseded`) that extends past the end of the data previously received
+            // there (= the consumed offset, nothing being buffered beyond it) is PROTOCOL_VIOLATION, whatever part of it
+            // repeats old data; judged only while the frame fits the CRYPTO buffer (else CRYPTO_BUFFER_EXCEEDED competes)
+            let mut old_level_fail: Option<String> = None;
+            if let Some((sp, f, _)) = seq.first() {
+                if !f.garbled && f.toks.first().map(|t| t.as_str()) == Some("crypto") && f.toks.len() >= 3 && !became_established && pbefore.error.is_none() {
+                    if let Ok(off) = f.toks[1].parse::<u64>() {
+                        let plen = if f.toks[2] == "-" { 0 } else { f.toks[2].len() as u64 / 2 };
+                        let end = off.saturating_add(plen);
+                        let rd = pbefore.crypto_read[*sp];
+                        let limit = rd.saturating_add(pbefore.crypto_buffer_size as u64);
+                        if level_superseded(*sp, &before) && pbefore.crypto_buffered[*sp] == 0 && end > rd && end <= limit && new_error != Some(0x0a) {
+                            let how = if off < rd { "starts inside the consumed data and extends past it" } else if off == rd { "starts exactly at the consumed offset" } else { "starts beyond the consumed offset" };
+                            old_level_fail = Some(format!("victim node {node} ({}, state {}, keys held for spaces {:?}): first frame of the datagram is CRYPTO [{off}, {end}) in space {sp}, a level the victim has superseded; it had consumed {rd} bytes there with nothing buffered, so the frame carries {} bytes of new data ({how}): expected PROTOCOL_VIOLATION (0xa), observed {observed}", if pbefore.side_is_server { "server" } else { "client" }, before.state, (0..3).filter(|&i| before.spaces[i].has_keys).collect::<Vec<_>>(), end - rd));
+                        }
+                    }
+                }
+            }
             if new_error.is_none() && pafter.error.is_none() {
                 for (sp, f, _) in seq.iter() {
                     if f.garbled || f.toks.first().map(|t| t.as_str()) != Some("crypto") || f.toks.len() < 3 {
@@ -1056,6 +1116,9 @@ pub fn frames(seed: u64, out: &mut Outcome) {
             let srw = conn.verif_stream_probe(0).stream_receive_window;
             for f in crypto_fails {
                 sim.fail("crypto-buffer-limit-not-enforced", f);
+            }
+            if let Some(f) = old_level_fail {
+                sim.fail("crypto-new-data-at-old-level-accepted", f);
             }
             let unique = (srw.saturating_mul(live_recv)).min(st.receive_window);
             let cb = pafter.crypto_buffer_size as u64;
@@ -1157,20 +1220,40 @@ pub fn frames(seed: u64, out: &mut Outcome) {
                         }
                     }
                 }
-                if injected < n_attack && sim.steps % every == 0 && open(&vsnap) && open(&hsnap) {
+                // a level the victim has superseded (RFC 9001 4.1.3) while both sides still hold its keys: the window lasts
+                // about one flight, so it is used whenever it is open (unrestricted modes only; in mode 2 it is THE one
+                // unrestricted datagram)
+                let old_level: Option<usize> = if mode != 1 && (mode == 0 || injected <= kill_at) && open(&vsnap) && open(&hsnap) {
+                    (0..2).find(|&i| hsnap.spaces[i].has_keys && vsnap.spaces[i].has_keys && level_superseded(i, &vsnap))
+                } else {
+                    None
+                };
+                if injected < n_attack && (sim.steps % every == 0 || old_level.is_some()) && open(&vsnap) && open(&hsnap) {
                     let avail: Vec<usize> = (0..3).filter(|&i| hsnap.spaces[i].has_keys).collect();
                     // early spaces are short-lived: prefer them while they exist
-                    let space = if avail.is_empty() { 0 } else if avail.len() > 1 && sim.rng.chance(2, 3) { avail[0] } else { *sim.rng.pick(&avail) };
+                    let mut space = if avail.is_empty() { 0 } else if avail.len() > 1 && sim.rng.chance(2, 3) { avail[0] } else { *sim.rng.pick(&avail) };
+                    let mut targeted = false;
+                    if let Some(sp) = old_level {
+                        if sim.rng.chance(3, 4) {
+                            space = sp;
+                            targeted = true;
+                        }
+                    }
                     // never more than one packet's worth pending per space
                     let free = !avail.is_empty() && sim.nodes[hn].conns[&hc].conn.verif_injection_pending()[space] == 0 && s.pending[space].is_empty();
                     if free {
                         let saved = (attack_streams.clone(), af_seq);
+                        if targeted && mode == 2 {
+                            kill_at = injected;
+                        }
                         let legal = mode != 0 && injected != kill_at;
                         let vconn = &sim.nodes[vn].conns[&vc].conn;
                         let probe = vconn.verif_frame_probe();
                         let srw = vconn.verif_stream_probe(0).stream_receive_window;
                         let mut r2 = Rng::new(sim.rng.next());
-                        let (fr, new_bytes) = if legal {
+                        let (fr, new_bytes) = if targeted {
+                            (gen_old_level_crypto(&mut r2, &mut ex, probe.crypto_read[space]), 0)
+                        } else if legal {
                             let hprobe = sim.nodes[hn].conns[&hc].conn.verif_frame_probe();
                             let unconfirmed: u64 = s.sent.iter().map(|i| i.new_bytes).sum::<u64>() + s.pending_new.iter().sum::<u64>();
                             let st = &vsnap.streams;
